@@ -397,7 +397,7 @@ PLANS["C07"] = {
     "rule": "a case is a record of 1..24 typed fields: integers of width 1..128 (signed and unsigned, through int!/uint! and the fixed "
             "uN!/iN! words with and without explicit byte order; values 0, -1, i128 min/max, the sign-bit value and its predecessor, "
             "random), f32/f64 (zeros, infinities, subnormals, max, random bit patterns; through fN! and float!), raw bit-strings of "
-            "0..70 bits, strings (ASCII, multi-byte, with newline and quote), single bytes and nested byte lists, with big/little "
+            "0..70 bits (half of them views into a longer buffer starting at another bit position), strings (ASCII, multi-byte, with newline and quote), single bytes and nested byte lists, with big/little "
             "switches between fields so that fields start at every bit alignment. The record is packed with one (randomly nested) "
             "[ ... ] >bitstr, compared bit for bit with the harness's own layout, parsed back with the matching read words in the same "
             "byte order (values must equal the originals, remain must be 0), then emitted again split at random positions over several "
@@ -407,5 +407,33 @@ PLANS["C07"] = {
                     "unsigned fields are at most 127 bits wide (the i128 cell cannot hold a larger unsigned value); f32 fields hold "
                     "f32-representable values; NaN is not packed through the language (payload rules of the f64->f32 cast are not the subject)"],
     "require": [need("records_parsed_back", 100000), need("emit_sequences", 100000), need("emit_calls", 300000), need_set("field_kinds", 120),
-                need("field:int-odd", 300000), need("field:float32", 50000), need("field:float64", 50000), need("field:string", 100000)],
+                need("field:int-odd", 300000), need("field:float32", 50000), need("field:float64", 50000), need("field:string", 100000), need("raw_fields_that_are_views", 50000)],
+}
+
+PLANS["C08"] = {
+    "oom_is_excluded": True,
+    "jobs": {
+        "quick": [("", "release", 200000), ("", "dev", 48000)],
+        "thorough": [("", "release", 24000000), ("", "dev", 6000000)],
+    },
+    "rule": "half of the cases: one dictionary entry (all 249 entries = 248 distinct names incl. the canvas plugin, round-robin; immediate words are given source "
+            "text to parse, in 11 surrounding constructs) applied to 0..3 arguments drawn from 37 argument classes (nil, flags, "
+            "boundary integers 0 +-1 2^63 2^64 i128/isize/usize extremes, reals incl. NaN and infinities, strings incl. 70-80 byte "
+            "strings with multi-byte characters at the elision boundary, numeric strings, bit-strings aligned / odd / sliced, vectors "
+            "(nested 40 deep, long), maps, tagged values incl. hand-made formatting tags, values read from binary input), through eval, "
+            "compile+run or compile+step, with recording on in a third of the cases followed by reverse steps; the other half: token "
+            "soup (dictionary words, boundary and malformed literals, arbitrary UTF-8, control-structure fragments, let patterns, "
+            "includes of scratch files, parsing words with hostile sizes, known-dangerous fragments) on a fresh interpreter or on a "
+            "long-lived one that accumulates state, with limits sometimes lowered. After every call Display/Debug of the error, "
+            "pretty_error(), last_err_location() and format_cell / format_cell_safe of the top six stack values are called too. "
+            "Every call runs under catch_unwind; the parent watches exit status and signals. Instruction limit 3000, stack limit 256, "
+            "address space 3 GiB; allocation-size arguments (random-bits, int!, uint!, d2-resize) <= 65536; file and exec words only "
+            "see scratch paths. distinct = distinct (word, argument classes, drive style) / distinct soups",
+    "assumptions": ["'memory allocation of N bytes failed' aborts are counted as 'allocation not modest' (excluded by the statement's "
+                    "own proviso), never as violations",
+                    "exec-piped only runs /bin/cat or a missing program"],
+    "require": [need_set("words_reached", 248), need_set("xerr_variants", 22), need("call:eval", 60000), need("call:compile", 60000),
+                need("call:run", 15000), need("call:next", 15000), need("call:rnext", 60000), need("call:pretty_error", 200000),
+                need("call:format_cell", 200000), need("soups:long-lived", 30000), need_set("arity1_class_tuples", 37),
+                need_set("arity2_class_tuples", 1000), need_set("arity3_class_tuples", 3000)],
 }
